@@ -14,7 +14,7 @@ VISO=/var/tmp/verif-iso-$$
 # touched in /repo at the end, so that the next build outside recompiles it.
 finish() {
     if [ -d "$VISO" ]; then
-        cp "$VISO/selftest/results.json" /verif/selftest/results.json 2>/dev/null || true
+        cp "$VISO/selftest/results.json" "/verif/selftest/results.iso-$$.json" 2>/dev/null || true   # merged by hand (several may run side by side)
         rm -rf "$VISO"
     else
         (cd "$ISO" && git ls-files -z | while IFS= read -r -d '' f; do
